@@ -136,7 +136,7 @@ Proof. intros. unw. lia. Qed.
 Lemma calcoffset_full_flash :
   forall off size imgsize o,
     0 <= off -> 0 <= size -> off + size = imgsize -> imgsize < W32 -> 0 <= o < imgsize ->
-    calc_image_offset (LFullFlash off size) (BASE - imgsize + o) = Ok o.
+    calc_image_offset (LFullFlash off size) imgsize (BASE - imgsize + o) = Ok o.
 Proof.
   intros off size imgsize o H1 H2 H3 H4 H5. cbn [calc_image_offset]. f_equal.
   rewrite calc_region_offset_exact; unfold W32, W64, BASE in *; lia.
@@ -145,30 +145,34 @@ Qed.
 Lemma calcoffset_coreboot :
   forall off size imgsize o,
     0 <= off -> 0 <= size -> off + size = imgsize -> imgsize < W32 -> 0 <= o < imgsize ->
-    calc_image_offset (LCoreboot off size) (BASE - imgsize + o) = Ok o.
+    calc_image_offset (LCoreboot off size) imgsize (BASE - imgsize + o) = Ok o.
 Proof.
   intros off size imgsize o H1 H2 H3 H4 H5. cbn [calc_image_offset]. f_equal.
   rewrite calc_region_offset_exact; unfold W32, W64, BASE in *; lia.
 Qed.
 
-(** bare BIOS region: the distance from the END of the image is returned *)
-Lemma calcoffset_bios_characterised :
+(** bare BIOS region (since fix 98fb605): the whole image is the region that ends at 4 GiB *)
+Lemma calcoffset_bios_only :
   forall imgsize o, 0 < imgsize <= BASE -> 0 <= o < imgsize ->
-    calc_image_offset LBiosOnly (BASE - imgsize + o) = Ok (imgsize - o).
+    calc_image_offset LBiosOnly imgsize (BASE - imgsize + o) = Ok o.
 Proof. intros. cbn [calc_image_offset]. f_equal. unw. lia. Qed.
 
-Lemma calcoffset_bios_refuted :
-  exists imgsize o, 0 < imgsize <= BASE /\ 0 <= o < imgsize /\
-    calc_image_offset LBiosOnly (BASE - imgsize + o) <> Ok o.
-Proof. exists 65536, 65520. repeat split; try (unfold BASE; lia). vm_compute. discriminate. Qed.
-
-Lemma calcoffset_bios_right_only_in_the_middle :
-  forall imgsize o, 0 < imgsize <= BASE -> 0 <= o < imgsize ->
-    (calc_image_offset LBiosOnly (BASE - imgsize + o) = Ok o <-> 2 * o = imgsize).
+(** ... for every address, not only those inside the image: the same anchor as the other layouts *)
+Lemma calcoffset_bios_only_anchor :
+  forall imgsize addr, 0 <= imgsize < W32 -> BASE - imgsize <= addr < W64 ->
+    calc_image_offset LBiosOnly imgsize addr = Ok (calc_region_offset 0 imgsize addr) /\
+    calc_region_offset 0 imgsize addr = addr - (BASE - imgsize).
 Proof.
-  intros imgsize o H1 H2. rewrite calcoffset_bios_characterised by assumption.
-  split; [intros H; injection H; lia | intros H; f_equal; lia].
+  intros imgsize addr H1 H2. cbn [calc_image_offset]. split.
+  - f_equal. unw. lia.
+  - rewrite calc_region_offset_exact; unfold W32, W64, BASE in *; lia.
 Qed.
+
+(** the failing inputs of the former defect (the code returned 4GiB - addr: 0x10, 0x5e0000) *)
+Lemma calcoffset_bios_only_witness :
+  calc_image_offset LBiosOnly 65536 4294967280 = Ok 65520 /\
+  calc_image_offset LBiosOnly 6160384 4288806912 = Ok 0.
+Proof. split; vm_compute; reflexivity. Qed.
 
 (** * VolumeOf: the pick for one range *)
 
